@@ -185,7 +185,7 @@ func (c *sconn) markGone(rec *recorder, how string) {
 		how = "server"
 	}
 	c.mu.Unlock()
-	rec.add(ev{"ev": "srv.gone", "c": c.n, "x": how})
+	rec.add(ev{"ev": "srv.gone", "c": c.n, "x": how, "s": c.sseSub})
 }
 
 func (sv *server) ServeHTTP(w http.ResponseWriter, r *http.Request) {
